@@ -504,7 +504,7 @@ mod misc {
                         let cap = v.capacity();
                         let mut f = v.into_flattened();
                         check("into_flattened", ids(&f), &want, &mut notes);
-                        if f.capacity() != cap * $N { notes.push(format!("{head}: capacity: {} after flattening a vector of capacity {cap}", f.capacity())); }
+                        if f.capacity() > cap * $N || f.capacity() < f.len() { notes.push(format!("{head}: capacity: {} after flattening a vector of capacity {cap} and length {}", f.capacity(), f.len())); }
                         let mut w = want.clone();
                         for i in 0..(extra * $N + 2) { let id = base + 90 + i as u32; f.push(D(id)); born.push(id); w.push(id); }
                         check("pushes onto the flattened vector", ids(&f), &w, &mut notes);
@@ -515,7 +515,7 @@ mod misc {
                         let cap = v.capacity();
                         let mut f = v.into_flattened();
                         check("into_flattened", ids(&f), &want, &mut notes);
-                        if f.capacity() != cap * $N { notes.push(format!("{head}: capacity: {} after flattening a vector of capacity {cap}", f.capacity())); }
+                        if f.capacity() > cap * $N || f.capacity() < f.len() { notes.push(format!("{head}: capacity: {} after flattening a vector of capacity {cap} and length {}", f.capacity(), f.len())); }
                         let mut w = want.clone();
                         while f.len() < f.capacity() && f.len() < 64 { let id = base + 90 + f.len() as u32; f.push(D(id)); born.push(id); w.push(id); }
                         check("filling the flattened vector", ids(&f), &w, &mut notes);
@@ -527,7 +527,7 @@ mod misc {
                         let cap = v.capacity();
                         let mut f = v.into_flattened();
                         check("into_flattened", ids(&f), &want, &mut notes);
-                        if f.capacity() != cap * $N { notes.push(format!("{head}: capacity: {} after flattening a vector of capacity {cap}", f.capacity())); }
+                        if f.capacity() > cap * $N || f.capacity() < f.len() { notes.push(format!("{head}: capacity: {} after flattening a vector of capacity {cap} and length {}", f.capacity(), f.len())); }
                         let mut w = want.clone();
                         for i in 0..(extra * $N + 2) { let id = base + 90 + i as u32; f.push(D(id)); born.push(id); w.push(id); }
                         check("pushes onto the flattened vector", ids(&f), &w, &mut notes);
@@ -538,7 +538,7 @@ mod misc {
                         let cap = v.capacity();
                         let mut f = v.into_flattened();
                         check("into_flattened", ids(&f), &want, &mut notes);
-                        if f.capacity() != cap * $N { notes.push(format!("{head}: capacity: {} after flattening a vector of capacity {cap}", f.capacity())); }
+                        if f.capacity() > cap * $N || f.capacity() < f.len() { notes.push(format!("{head}: capacity: {} after flattening a vector of capacity {cap} and length {}", f.capacity(), f.len())); }
                         let mut w = want.clone();
                         for i in 0..(extra * $N + 2) { let id = base + 90 + i as u32; f.push(D(id)); born.push(id); w.insert(0, id); }
                         check("pushes onto the flattened vector", ids(&f), &w, &mut notes);
@@ -571,5 +571,185 @@ mod misc {
         }
         notes
     }
+
+    // ------------------------------------------------------------------------------------------
+    // collections whose allocator is a WithoutShrink / WithoutDealloc wrapper (C13: the opt-outs are
+    // honoured, C08: the vector still behaves like std's): a random history with std::vec::Vec in
+    // lock-step; with WithoutShrink the capacity never goes down and no byte is given back by a
+    // shrink, with WithoutDealloc nothing is ever given back, not even by dropping the vector
+    pub fn wrappers_probe(r: &mut Rng) -> Vec<String> {
+        use bump_scope::{WithoutDealloc, WithoutShrink};
+        let mut notes: Vec<String> = vec![];
+        let which = r.below(4);
+        let wname = ["WithoutShrink<&Bump>", "WithoutDealloc<&Bump>", "WithoutDealloc<WithoutShrink<&Bump>>", "&Bump"][which as usize];
+        let up = r.coin(1, 2);
+        let steps = r.range(3, 25) as usize;
+        let script: Vec<(u64, usize)> = (0..steps).map(|_| (r.below(8), r.below(40) as usize)).collect();
+        let head = format!("wrappers: BumpVec<u32, {wname}> UP={}", up as u8);
+        macro_rules! run {
+            ($bump:expr, $alloc:expr, $no_shrink:expr, $no_dealloc:expr) => {{
+                let bump = $bump;
+                let keep = bump.alloc_slice_fill(9, 0x6Bu8).as_ptr() as usize;
+                let mut v = BumpVec::new_in($alloc(&bump));
+                let mut w: Vec<u32> = vec![];
+                let mut trace = String::new();
+                let mut low_water = bump.stats().allocated();
+                for (i, (op, n)) in script.iter().enumerate() {
+                    let (cap0, alloc0) = (v.capacity(), bump.stats().allocated());
+                    match op {
+                        0 | 1 => { v.push(i as u32); w.push(i as u32); trace.push_str(" push"); }
+                        2 => { v.extend_from_slice_copy(&vec![7u32; *n]); w.extend_from_slice(&vec![7u32; *n]); trace.push_str(&format!(" extend({n})")); }
+                        3 => { let k = (*n).min(w.len()); v.truncate(k); w.truncate(k); trace.push_str(&format!(" truncate({k})")); }
+                        4 => { v.shrink_to_fit(); trace.push_str(" shrink_to_fit"); }
+                        5 => { v.shrink_to(*n); trace.push_str(&format!(" shrink_to({n})")); }
+                        6 => { v.reserve(*n); trace.push_str(&format!(" reserve({n})")); }
+                        _ => { bump.alloc(0xEEu8); trace.push_str(" other"); }
+                    }
+                    if v.as_slice() != w.as_slice() { notes.push(format!("{head}: contents differ from std::vec::Vec after{trace}")); break; }
+                    if v.capacity() < v.len() { notes.push(format!("{head}: capacity: capacity {} below length {} after{trace}", v.capacity(), v.len())); }
+                    let alloc1 = bump.stats().allocated();
+                    if matches!(op, 4 | 5) {
+                        if $no_shrink && alloc1 < alloc0 { notes.push(format!("{head}: capacity: a shrink through WithoutShrink took the allocated bytes from {alloc0} to {alloc1} (capacity {cap0} -> {}) after{trace}", v.capacity())); }
+                        if v.capacity() > cap0 { notes.push(format!("{head}: capacity: a shrink raised the capacity from {cap0} to {} after{trace}", v.capacity())); }
+                    }
+                    if $no_dealloc && $no_shrink && alloc1 < low_water { notes.push(format!("{head}: capacity: allocated bytes fell from {low_water} to {alloc1} although nothing may be given back after{trace}")); }
+                    low_water = low_water.max(alloc1);
+                }
+                let before_drop = bump.stats().allocated();
+                drop(v);
+                let after_drop = bump.stats().allocated();
+                if $no_dealloc && after_drop < before_drop { notes.push(format!("{head}: capacity: dropping the vector gave {} bytes back through WithoutDealloc after{trace}", before_drop - after_drop)); }
+                if after_drop > before_drop { notes.push(format!("{head}: capacity: dropping the vector allocated after{trace}")); }
+                if unsafe { core::slice::from_raw_parts(keep as *const u8, 9) } != [0x6Bu8; 9] { notes.push(format!("{head}: contents differ from std::vec::Vec: an earlier allocation changed after{trace}")); }
+            }};
+        }
+        use bump_scope::settings::BumpSettings;
+        type Up = Bump<bump_scope::alloc::Global, BumpSettings<1, true>>;
+        type Down = Bump<bump_scope::alloc::Global, BumpSettings<4, false>>;
+        match (which, up) {
+            (0, true) => run!(Up::with_size(256), |b| WithoutShrink(b), true, false),
+            (0, false) => run!(Down::with_size(256), |b| WithoutShrink(b), true, false),
+            (1, true) => run!(Up::with_size(256), |b| WithoutDealloc(b), false, true),
+            (1, false) => run!(Down::with_size(256), |b| WithoutDealloc(b), false, true),
+            (2, true) => run!(Up::with_size(256), |b| WithoutDealloc(WithoutShrink(b)), true, true),
+            (2, false) => run!(Down::with_size(256), |b| WithoutDealloc(WithoutShrink(b)), true, true),
+            (_, true) => run!(Up::with_size(256), |b| b, false, false),
+            (_, false) => run!(Down::with_size(256), |b| b, false, false),
+        }
+        notes
+    }
+
+    // ------------------------------------------------------------------------------------------
+    // every kind of owned slice as the source of append / alloc_slice_move / from_owned_slice_in
+    // (src/owned_slice.rs): arrays, boxed arrays, std and bump vectors, boxed slices, partially
+    // consumed iterators and drains, and `&mut` of them.  The elements move: nothing is dropped by
+    // the hand-over, the destination reads like std's, a source passed by `&mut` is left empty but
+    // usable, and in the end every element is dropped exactly once.
+    pub fn sources_probe(r: &mut Rng) -> Vec<String> {
+        let mut notes: Vec<String> = vec![];
+        drops();
+        let n = r.range(0, 6) as usize;          // elements already in the destination
+        let base = r.below(1000) as u32 * 100;
+        let dst_ids: Vec<u32> = (0..n as u32).map(|i| base + i).collect();
+        let m = 3usize;                          // the sources hold three elements (arrays need a constant)
+        let src_ids: Vec<u32> = (0..m as u32).map(|i| base + 50 + i).collect();
+        let taken = r.below(3) as usize;         // iterators / drains: elements consumed before the hand-over
+        let which = r.below(16);
+        let sink = r.below(3);                   // 0 append onto a BumpVec, 1 alloc_slice_move, 2 BumpVec::from_owned_slice_in
+        let by_ref = r.coin(1, 3);
+        let sname = ["[T; 3]", "BumpBox<[T; 3]>", "Box<[T; 3]>", "array::IntoIter", "BumpBox<[T]>", "FixedBumpVec", "BumpVec", "MutBumpVec", "MutBumpVecRev",
+                     "Box<[T]>", "Vec", "vec::IntoIter", "vec::Drain", "owned_slice::IntoIter", "owned_slice::Drain", "MutBumpVec (append sink)"][which as usize];
+        let head = format!("sources: {} from {sname}{} n={n} taken={taken}", ["append", "alloc_slice_move", "from_owned_slice_in"][sink as usize], if by_ref { " by &mut" } else { "" });
+        let bump: Bump = Bump::new();
+        let mut other: Bump = Bump::new();
+        let mk = |i: usize| D(src_ids[i]);
+        let mut consumed: Vec<u32> = vec![];    // taken out of an iterator before the hand-over (dropped by this probe)
+        let mut expect_src: Vec<u32> = src_ids.clone();
+        // the destination
+        let mut dst: BumpVec<D, &Bump> = BumpVec::new_in(&bump);
+        for i in &dst_ids { dst.push(D(*i)); }
+        let mut moved: Option<Vec<u32>> = None;   // what the non-append sinks produced
+        macro_rules! hand_over {
+            ($src:expr) => {{
+                let before = drops();
+                if !before.iter().all(|x| consumed.contains(x)) { notes.push(format!("{head}: drops do not match: building the source dropped {before:?}")); }
+                match sink {
+                    0 => dst.append($src),
+                    1 => { let b = bump.alloc_slice_move($src); moved = Some(ids(&b)); core::mem::forget(b); }
+                    _ => { let v: BumpVec<D, &Bump> = BumpVec::from_owned_slice_in($src, &bump); moved = Some(ids(&v)); core::mem::forget(v); }
+                }
+                let during = drops();
+                if !during.is_empty() { notes.push(format!("{head}: drops do not match: the hand-over dropped {during:?}")); }
+            }};
+        }
+        match which {
+            0 => { let a: [D; 3] = [mk(0), mk(1), mk(2)]; hand_over!(a); }
+            1 => { let a = bump.alloc([mk(0), mk(1), mk(2)]); hand_over!(a); }
+            2 => { let a: Box<[D; 3]> = Box::new([mk(0), mk(1), mk(2)]); hand_over!(a); }
+            3 => {
+                let mut it = [mk(0), mk(1), mk(2)].into_iter();
+                for _ in 0..taken { if let Some(d) = it.next() { consumed.push(d.0); expect_src.remove(0); } }
+                if by_ref { hand_over!(&mut it); if it.next().is_some() { notes.push(format!("{head}: contents differ from std::vec::Vec: the iterator still yields after the hand-over")); } } else { hand_over!(it); }
+            }
+            4 => { let mut a: BumpBox<[D]> = other.alloc_iter((0..m).map(mk)); if by_ref { hand_over!(&mut a); if !a.is_empty() { notes.push(format!("{head}: contents differ from std::vec::Vec: the source is not empty after the hand-over")); } } else { hand_over!(a); } }
+            5 => { let mut a: FixedBumpVec<D> = FixedBumpVec::with_capacity_in(m + 1, &other); for i in 0..m { a.push(mk(i)); } if by_ref { hand_over!(&mut a); if !a.is_empty() { notes.push(format!("{head}: contents differ from std::vec::Vec: the source is not empty after the hand-over")); } a.push(D(base + 70)); if ids(&a) != [base + 70] { notes.push(format!("{head}: contents differ from std::vec::Vec: the emptied source is not usable")); } } else { hand_over!(a); } }
+            6 => { let mut a: BumpVec<D, &Bump> = BumpVec::new_in(&other); for i in 0..m { a.push(mk(i)); } if by_ref { hand_over!(&mut a); if !a.is_empty() { notes.push(format!("{head}: contents differ from std::vec::Vec: the source is not empty after the hand-over")); } a.push(D(base + 70)); if ids(&a) != [base + 70] { notes.push(format!("{head}: contents differ from std::vec::Vec: the emptied source is not usable")); } } else { hand_over!(a); } }
+            7 | 15 => { let mut a: MutBumpVec<D, &mut Bump> = MutBumpVec::new_in(&mut other); for i in 0..m { a.push(mk(i)); } if by_ref { hand_over!(&mut a); if !a.is_empty() { notes.push(format!("{head}: contents differ from std::vec::Vec: the source is not empty after the hand-over")); } } else { hand_over!(a); } }
+            8 => { let mut a: MutBumpVecRev<D, &mut Bump> = MutBumpVecRev::new_in(&mut other); for i in (0..m).rev() { a.push(mk(i)); } if by_ref { hand_over!(&mut a); if !a.is_empty() { notes.push(format!("{head}: contents differ from std::vec::Vec: the source is not empty after the hand-over")); } } else { hand_over!(a); } }
+            9 => { let a: Box<[D]> = (0..m).map(mk).collect::<Vec<D>>().into_boxed_slice(); hand_over!(a); }
+            10 => { let mut a: Vec<D> = (0..m).map(mk).collect(); if by_ref { hand_over!(&mut a); if !a.is_empty() { notes.push(format!("{head}: contents differ from std::vec::Vec: the source is not empty after the hand-over")); } a.push(D(base + 70)); } else { hand_over!(a); } }
+            11 => {
+                let mut it = (0..m).map(mk).collect::<Vec<D>>().into_iter();
+                for _ in 0..taken { if let Some(d) = it.next_back() { consumed.push(d.0); expect_src.pop(); } }
+                if by_ref { hand_over!(&mut it); if it.next().is_some() { notes.push(format!("{head}: contents differ from std::vec::Vec: the iterator still yields after the hand-over")); } } else { hand_over!(it); }
+            }
+            12 => {
+                let mut v: Vec<D> = (0..m).map(mk).collect();
+                v.push(D(base + 71));               // stays in the vector: the drain covers the first three only
+                {
+                    let mut dr = v.drain(..m);
+                    for _ in 0..taken { if let Some(d) = dr.next() { consumed.push(d.0); expect_src.remove(0); } }
+                    hand_over!(dr);
+                }
+                if ids(&v) != [base + 71] { notes.push(format!("{head}: contents differ from std::vec::Vec: the drained std vector holds {:?}", ids(&v))); }
+            }
+            13 => {
+                let a: BumpBox<[D]> = other.alloc_iter((0..m).map(mk));
+                let mut it = a.into_iter();
+                for _ in 0..taken { if let Some(d) = it.next() { consumed.push(d.0); expect_src.remove(0); } }
+                if by_ref { hand_over!(&mut it); if it.next().is_some() { notes.push(format!("{head}: contents differ from std::vec::Vec: the iterator still yields after the hand-over")); } } else { hand_over!(it); }
+            }
+            _ => {
+                let mut a: BumpVec<D, &Bump> = BumpVec::new_in(&other);
+                for i in 0..m { a.push(mk(i)); }
+                a.push(D(base + 71));
+                {
+                    let mut dr = a.drain(..m);
+                    for _ in 0..taken { if let Some(d) = dr.next_back() { consumed.push(d.0); expect_src.pop(); } }
+                    hand_over!(dr);
+                }
+                if ids(&a) != [base + 71] { notes.push(format!("{head}: contents differ from std::vec::Vec: the drained bump vector holds {:?}", ids(&a))); }
+            }
+        }
+        let mut want: Vec<u32> = dst_ids.clone();
+        match &moved {
+            None => { want.extend(expect_src.iter().copied()); }
+            Some(got) => { if got != &expect_src { notes.push(format!("{head}: contents differ from std::vec::Vec: the new slice holds {got:?} instead of {expect_src:?}")); } }
+        }
+        if ids(&dst) != want { notes.push(format!("{head}: contents differ from std::vec::Vec: the destination holds {:?} instead of {want:?}", ids(&dst))); }
+        // in the end: everything that was not forgotten on purpose is dropped exactly once
+        let forgotten: Vec<u32> = moved.clone().unwrap_or_default();
+        drop(dst);
+        drop(other);
+        drop(bump);
+        let mut got = drops(); got.sort();
+        let mut all: Vec<u32> = dst_ids.iter().chain(src_ids.iter()).copied().filter(|x| !forgotten.contains(x) && !consumed.contains(x)).collect();
+        // extra elements some cases create
+        if matches!(which, 12 | 14) { all.push(base + 71); }
+        if by_ref && matches!(which, 5 | 6 | 10) { all.push(base + 70); }
+        all.sort();
+        if got != all { notes.push(format!("{head}: drops do not match: dropped {got:?}, expected exactly {all:?} once each")); }
+        notes
+    }
 }
-use misc::{misc_probe, producers_probe, traits_probe, flatten_probe};
+use misc::{misc_probe, producers_probe, traits_probe, flatten_probe, wrappers_probe, sources_probe};
